@@ -335,7 +335,7 @@ def check(prop, tier, replay=None):
     V.cov["exhaustive"] = True
     if prop == "C17":
         # the division lengths for ALL region lengths and divisors (symbolic integers, a few seconds)
-        detail, done = tlc.apalache("RegionInt", [("DivLemma", True), ("AllEqual", False)], wd, timeout=900)
+        detail, done = tlc.apalache("RegionInt", [("DivLemma", True), ("AllEqual", False)], wd, timeout=240 if tier == "quick" else 900)
         V.leg("unbounded", tool="apalache-mc 0.58", module="RegionInt", obligations=2, discharged=done, detail=detail,
               checker_cmd="apalache-mc check --inv=DivLemma|AllEqual --length=0 RegionInt.tla")
         V.cov["obligations"] = 2
